@@ -135,6 +135,10 @@ impl Link {
         self.ops.len()
     }
 
+    pub fn is_over_limit(&self) -> bool {
+        self.ops.is_over_limit() || self.data.is_over_limit()
+    }
+
     pub fn clear(&mut self) {
         self.current_symbol = 0;
         self.direct_set = false;
